@@ -17,6 +17,9 @@
 #include "wrap_sys.h"
 #include "vh_scen.h"
 
+#if defined(__SANITIZE_ADDRESS__)
+extern int __lsan_do_recoverable_leak_check(void);
+#endif
 static const char *cur_sc = "-";
 static long long st_reps, st_checks, st_fd_opened, st_names_checked, st_blocks_alloc;
 
@@ -126,7 +129,12 @@ int main(int argc, char **argv) {
 	p_libsys_shutdown();
 	if (va_count_new(0)) { printf("{\"ev\":\"leakblocks\",\"scenario\":\"after-shutdown\",\"blocks\":"); va_report_new(stdout, 0); printf("}\n"); }
 	cleanup_files();
+#if defined(__SANITIZE_ADDRESS__)
+	/* memory the library obtained from libc directly (not through the allocator table) and never released: the sanitizer's leak checker sees it
+	 * as unreachable now that every object is freed and the library is shut down (report on stderr, parsed by the orchestrator) */
+	if (getenv("VH_LSAN")) printf("{\"ev\":\"lsan\",\"leaks\":%d}\n", __lsan_do_recoverable_leak_check());
+#endif
 	printf("{\"ev\":\"stats\",\"scenario_runs\":%lld,\"neutrality_checks\":%lld,\"descriptors_tracked\":%ld,\"ipc_names_checked\":%lld,\"allocations\":%lld,\"frees\":%lld,\"viol\":%d,\"wall\":%.2f}\n",
 	       st_reps, st_checks, st_fd_opened, st_names_checked, va_total_alloc, va_total_free, vh_nviol, vh_now() - t0);
-	return 0;
+	fflush(NULL); _exit(0);
 }
